@@ -194,7 +194,21 @@ def make_afb(atoms, c, scheme, seed=1):
     import quansino.mc  # noqa: F401  (import order: see C08)
     from quansino.mc.fbmc import AdaptiveForceBias
 
-    return AdaptiveForceBias(atoms, c["min"], c["max"], 300.0, scheme, c["ref"], c["fn"], seed=seed)
+    # how the object gets its settings is derived from the case values (deterministic, all three ways occur)
+    mode = (len(repr(c["ref"])) + len(repr(c["max"])) + len(c["fn"]) + len(scheme)) % 3
+    if mode == 0:
+        return AdaptiveForceBias(atoms, c["min"], c["max"], 300.0, scheme, c["ref"], c["fn"], seed=seed)
+    # the documented tunables may also be (re)assigned on an existing simulation object, e.g. between two runs
+    other_fn = "exp" if c["fn"] == "tanh" else "tanh"
+    other_scheme = "energy" if scheme == "forces" else "forces"
+    afb = AdaptiveForceBias(atoms, c["min"] * 0.5, c["max"] * 2.0 + 1.0, 300.0,
+                            other_scheme if mode == 2 else scheme, c["ref"] * 3.7 + 1e-3, other_fn, seed=seed)
+    afb.reference_variance = c["ref"]
+    afb.min_delta = c["min"]
+    afb.max_delta = c["max"]
+    afb.update_function = c["fn"]
+    afb.scheme = scheme
+    return afb
 
 
 # ------------------------------------------------------------------------------------------ suite 1
